@@ -21,7 +21,7 @@ Lbl(ids, tag, ok) == IF ok THEN {} ELSE {<<id, tag, l>> : id \in ids}
 Range(q) == {q[i] : i \in DOMAIN q}
 
 Cov0 == [scn |-> 0, cmd |-> 0, out |-> 0, bigout |-> 0, res |-> 0, fail |-> 0, sig |-> 0,
-         intr |-> 0, end |-> 0, fdprobe |-> 0, rsp |-> 0, parallel |-> 0, pty |-> 0, eq |-> 0, con |-> 0, frames |-> 0]
+         intr |-> 0, end |-> 0, fdprobe |-> 0, rsp |-> 0, parallel |-> 0, pty |-> 0, eq |-> 0, con |-> 0, frames |-> 0, tracefile |-> 0]
 Bump(c, f) == [c EXCEPT ![f] = @ + 1]
 BumpIf(c, f, b) == IF b THEN Bump(c, f) ELSE c
 
@@ -158,6 +158,23 @@ Fancy(ev) ==
      \* only the -j bound relates them reliably)
      \cup Lbl({"CONF"}, "frame-running", \A f \in S : f.run <= ev.j)
 
+\* The performance trace (-d trace, trace.rs / task.rs ThreadIds): events <<name, tid, ts, dur, ph>>.
+TraceFile(ev) ==
+  LET E == ev.events
+      I == DOMAIN E
+      task == {i \in I : E[i][2] >= 1}
+      overlap(a, b) == E[a][3] < E[b][3] + E[b][4] /\ E[b][3] < E[a][3] + E[a][4]
+  IN Lbl({"CONF"}, "trace-json", ev.valid /\ \A i \in I : E[i][5] = "X" /\ E[i][3] >= 0 /\ E[i][4] >= 0)
+     \cup Lbl({"CONF"}, "trace-tasks",
+              /\ {E[i][1] : i \in task} = Range(ev.tasks)
+              /\ Cardinality(task) = Len(ev.tasks))
+     \cup Lbl({"CONF"}, "trace-lanes",
+              \A a \in task : /\ E[a][2] <= ev.j
+                               /\ \A b \in task : (a # b /\ overlap(a, b)) => E[a][2] # E[b][2])
+     \cup Lbl({"CONF"}, "trace-main",
+              E # <<>> /\ E[Len(E)][1] = "main" /\ E[Len(E)][2] = 0
+                /\ \E i \in I : E[i][1] = "load::read" /\ E[i][2] = 0)
+
 \* Two runs that must not differ (pty vs pipe; -C vs cd).
 Eq(ev) ==
   Lbl(Range(ev.props), ev.tag, ev.a = ev.b)
@@ -181,6 +198,8 @@ Step ==
                            /\ cov' = Bump(cov, "con")
        [] ev.e = "xfancy" -> /\ viol' = viol \cup Fancy(ev)
                              /\ cov' = [cov EXCEPT !.frames = @ + Len(ev.frames)]
+       [] ev.e = "xtrace" -> /\ viol' = viol \cup TraceFile(ev)
+                             /\ cov' = [cov EXCEPT !.tracefile = @ + Len(ev.events)]
        [] ev.e = "xeq"  -> /\ viol' = viol \cup Eq(ev)
                            /\ cov' = BumpIf(Bump(cov, "eq"), "pty", ev.tag = "pty-isolation")
        [] OTHER -> viol' = viol /\ cov' = cov
